@@ -278,7 +278,7 @@ func runUfsX(c *Case, res *result) (err error) {
 			return false
 		})
 		if !ok {
-			return &hangError{ref9p.TypeName(m.Type) + " on a FIFO neither blocked nor was answered"}
+			return &hangError{fmt.Sprintf("%s on a FIFO neither blocked nor was answered (goroutines in open(2) below Ufs: %d, wanted %d, fifo %d, create %v)", ref9p.TypeName(m.Type), inUfsOpen(), want, fifo, create)}
 		}
 		if isParked {
 			parked[fifo] = &xpark{who: who, fi: fi, fifo: fifo, mode: m.Mode, create: create}
